@@ -70,6 +70,8 @@ def _text_cond_feasible(term):
 
 def check(src, rep):
     M = Model(src)
+    from sa.oneshot import rule as _one_shot
+    _one_shot(rep, M, src, ("aidon", "obis_map", "cosem", "obis", "common"), "R1")
     ce = ConstEval(M)
     w = World(src)
     file = src.file(MOD)
